@@ -114,7 +114,7 @@ PROPS["C04"] = eval_prop("C04", [], ["C04", "C04_flat"],
     "C04: the action list with the working memory equals the in-order from-scratch list; each successful assignment computes its value on the current facts "
     "and write_target stores it (converted to the destination kind) at exactly the addressed path, every diverging path unchanged (lens laws). The harness "
     "compares all addressed locations and the frame on the caller's own Go objects.")
-PROPS["C05"] = eval_prop("C05", ["proofs/AnchorsValues.v"], ["C05_operators", "C05_binary", "C05_and_short_circuit", "C05_or_short_circuit", "C05_parentheses",
+PROPS["C05"] = eval_prop("C05", ["proofs/AnchorsValues.v", "proofs/StringBuiltins.v"], ["C05_string_builtins", "C05_operators", "C05_binary", "C05_and_short_circuit", "C05_or_short_circuit", "C05_parentheses",
                                                           "C05_negation", "C05_arguments", "C05_grammar_levels", "C05_published_table_partial", "C05_published_table_refuted"],
     "C05: the operator functions regenerated from pkg/reflectmath.go compute the independently written documented semantics (doc_bin) for operands of "
     "every width; short-circuit, negation, parentheses, argument order proved on the SPEC evaluator; the grammar's operator levels (regenerated) match the "
